@@ -566,6 +566,7 @@ pub fn run(run: &mut Run, tier: &str, seed: u64, only: Option<&str>) {
         };
         check_taiko(run, &format!("{id}#s"), &bytes, mods, rate, None);
         let mut takes: Vec<u32> = vec![0, 1, 2, 3, n_lines / 3, n_lines.saturating_sub(9), n_lines + 2];
+        if std::env::var("SKILL_DEBUG_TAKES").is_ok() { takes.extend(4..=30); }
         takes.dedup();
         if bytes.len() > 20000 {
             takes.truncate(3);
